@@ -155,7 +155,39 @@ class InputFactory:
                         out.append({'kind': d[0], 'values': [mint(m, t) for t in d[1]]})
                 return {'Rng': out}
             return SymInput(sort, r, ex)
+        if sort == 'VisFn':
+            return self.make_visfn(hint)
         raise Unsupported(f'input sort {sort}')
+
+    def make_visfn(self, hint):
+        """uninterpreted visibility callable: any boolean array of any shape; protocol
+        assumption: it does not modify its grid argument"""
+        I = self.I
+        calls = []
+        def handler(I_, f, args, kwargs):
+            h, w = I.fresh_int(hint + '_h'), I.fresh_int(hint + '_w')
+            I.assume(z3.And(h >= 0, w >= 0))
+            V = z3.Function(I.fresh_name(hint + '_V'), z3.IntSort(), z3.IntSort(), z3.BoolSort())
+            from .core import zint
+            arr = SArr(h, w, lambda i, j: V(zint(i), zint(j)), 'bool')
+            from .verify import snapshot
+            calls.append({'h': h, 'w': w, 'V': V, 'result': arr, 'args': [snapshot(I, x) for x in args],
+                          'kwargs': kwargs})
+            return arr
+        fn = SymCallable(hint, handler)
+        fn.calls = calls
+        def ex(m):
+            out = []
+            for c in calls:
+                hh, ww = mint(m, c['h']), mint(m, c['w'])
+                if hh * ww > 400:
+                    raise ValueError('model array too large')
+                out.append({'shape': [hh, ww], 'values': [[bool(z3.is_true(mval(m, c['V'](i, j)))) for j in range(ww)]
+                                                            for i in range(hh)]})
+            return {'VisFn': out}
+        si = SymInput('VisFn', fn, ex)
+        si.calls = calls
+        return si
 
     def make_grid(self, hint):
         I = self.I
